@@ -17,6 +17,10 @@ impl<T> TlsCell<T> {
     pub fn get(&self) -> (r: Option<&T>) ensures r is Some == self.v is Some, r matches Some(x) ==> self.v == Some(*x) {
         match &self.v { Some(x) => Some(x), None => None }
     }
+    /// RefCell<Option<T>>::take: moves the value OUT and leaves the cell empty
+    pub fn take(&mut self) -> (r: Option<T>) ensures r == old(self).v, final(self).v is None {
+        self.v.take()
+    }
     pub fn set(&mut self, t: T) -> (r: Result<(), T>)
         ensures old(self).v is None ==> r is Ok && final(self).v == Some(t), old(self).v is Some ==> r == Err::<(), T>(t) && final(self).v == old(self).v,
     {
